@@ -455,7 +455,7 @@ theorem mapSet_keys (goEq : Key α → Key α → Bool) (k : Key α) (v : V) (m 
     simp only [mapSet] at h
     split at h
     · rcases List.mem_cons.1 h with rfl | h'
-      · exact Or.inl (by simp)
+      · exact Or.inr rfl
       · exact Or.inl (List.mem_map.2 ⟨kv, List.mem_cons_of_mem _ h', rfl⟩)
     · rcases List.mem_cons.1 h with rfl | h'
       · exact Or.inl (by simp)
@@ -624,36 +624,40 @@ theorem BatchResponse.get_set (b : BatchResponse α V) (m : List (Key α × V)) 
   cases t <;> cases t' <;> simp_all [BatchResponse.get, BatchResponse.set]
 
 /-- hypotheses under which a document is read without loss: every raw key is located to its
-annotation, and no field mentions one original twice -/
-def ADoc.Located (locator : Bytes → Except ErrClass (Key α)) (goEq : Key α → Key α → Bool)
-    (d : ADoc α V) : Prop :=
-  ∀ f ∈ d, f.1 ≠ .other →
-    (∀ e ∈ f.2, locator e.1 = .ok e.2.1) ∧ (f.2.map (·.2.1)).Pairwise (fun a b => goEq a b = false)
+annotation, no field mentions one original twice, and — where the implementation rejects them
+(v2) — there is no member besides the three fields -/
+def ADoc.Located (strict : Bool) (locator : Bytes → Except ErrClass (Key α))
+    (goEq : Key α → Key α → Bool) (d : ADoc α V) : Prop :=
+  ∀ f ∈ d, (f.1 = .other → strict = false) ∧ (f.1 ≠ .other →
+    (∀ e ∈ f.2, locator e.1 = .ok e.2.1) ∧ (f.2.map (·.2.1)).Pairwise (fun a b => goEq a b = false))
 
-theorem unmarshalFields_ok (locator : Bytes → Except ErrClass (Key α)) (goEq : Key α → Key α → Bool)
-    (d : ADoc α V) (b : BatchResponse α V) (h : d.Located locator goEq) :
-    unmarshalFields locator goEq b d.plain = .ok (specFields b d) := by
+theorem unmarshalFields_ok (strict : Bool) (locator : Bytes → Except ErrClass (Key α))
+    (goEq : Key α → Key α → Bool)
+    (d : ADoc α V) (b : BatchResponse α V) (h : d.Located strict locator goEq) :
+    unmarshalFields strict locator goEq b d.plain = .ok (specFields b d) := by
   induction d generalizing b with
   | nil => rfl
   | cons f rest ih =>
     obtain ⟨tag, es⟩ := f
-    have hrest : ADoc.Located locator goEq rest := fun f hf => h f (List.mem_cons_of_mem _ hf)
+    have hrest : ADoc.Located strict locator goEq rest := fun f hf => h f (List.mem_cons_of_mem _ hf)
     have hf := h (tag, es) List.mem_cons_self
     simp only [ADoc.plain, List.map_cons, unmarshalFields, specFields]
     cases tag with
-    | other => simpa [BatchResponse.set, ADoc.plain] using ih b hrest
+    | other =>
+      have hs := hf.1 rfl
+      simpa [BatchResponse.set, ADoc.plain, hs] using ih b hrest
     | results =>
-      obtain ⟨h1, h2⟩ := hf (by simp)
+      obtain ⟨h1, h2⟩ := hf.2 (by simp)
       have := fillField_ok locator goEq ([] : List (Key α × V)) es h1 (by simpa using h2)
       simp only [this, List.nil_append]
       simpa [BatchResponse.set, ADoc.plain] using ih _ hrest
     | statuses =>
-      obtain ⟨h1, h2⟩ := hf (by simp)
+      obtain ⟨h1, h2⟩ := hf.2 (by simp)
       have := fillField_ok locator goEq ([] : List (Key α × V)) es h1 (by simpa using h2)
       simp only [this, List.nil_append]
       simpa [BatchResponse.set, ADoc.plain] using ih _ hrest
     | errors =>
-      obtain ⟨h1, h2⟩ := hf (by simp)
+      obtain ⟨h1, h2⟩ := hf.2 (by simp)
       have := fillField_ok locator goEq ([] : List (Key α × V)) es h1 (by simpa using h2)
       simp only [this, List.nil_append]
       simpa [BatchResponse.set, ADoc.plain] using ih _ hrest
@@ -687,9 +691,9 @@ theorem specFields_get_last (b : BatchResponse α V) (pre post : ADoc α V) (t :
     simp only [List.cons_append, specFields]
     exact ih _
 
-theorem unmarshalFields_located (locator : Bytes → Except ErrClass (Key α))
+theorem unmarshalFields_located (strict : Bool) (locator : Bytes → Except ErrClass (Key α))
     (goEq : Key α → Key α → Bool) (doc : List (FieldTag × List (Bytes × Option V)))
-    (b b' : BatchResponse α V) (h : unmarshalFields locator goEq b doc = .ok b') :
+    (b b' : BatchResponse α V) (h : unmarshalFields strict locator goEq b doc = .ok b') :
     (∀ f ∈ doc, f.1 ≠ .other → ∀ e ∈ f.2, ∃ o, locator e.1 = .ok o) ∧
     (∀ t m, b'.get t = some m → ∀ kv ∈ m,
         (∃ m0, b.get t = some m0 ∧ kv.1 ∈ m0.map (·.1)) ∨ ∃ raw, locator raw = .ok kv.1) := by
@@ -704,6 +708,8 @@ theorem unmarshalFields_located (locator : Bytes → Except ErrClass (Key α))
     cases tag with
     | other =>
       simp only at h
+      split at h
+      · cases h
       obtain ⟨h1, h2⟩ := ih b h
       refine ⟨fun f hf hne => ?_, h2⟩
       rcases List.mem_cons.1 hf with rfl | hin
@@ -732,5 +738,34 @@ theorem unmarshalFields_located (locator : Bytes → Except ErrClass (Key α))
               | exact Or.inl ⟨m0, hm0, hin⟩
               | cases hm0
           · exact Or.inr hraw
+
+/-! ## distinct encodings -/
+
+/-- inequivalent keys have different encodings -/
+def EncInj (O : KeyOps α) (enc : α → Bytes) : Prop := ∀ a b, O.eq a b = false → enc a ≠ enc b
+
+theorem enc_nodup {O : KeyOps α} {s : GenericSet α} (g : Good O s) (enc : α → Bytes)
+    (hc : HashCongrOn O s.allKeys)
+    (hs : ∀ a ∈ s.allKeys, ∀ b ∈ s.allKeys, O.eq a.val b.val = true → O.eq b.val a.val = true)
+    (hinj : EncInj O enc) : (s.allKeys.map (fun k => enc k.val)).Nodup := by
+  have hsep := allKeys_sep g (fun a ha b hb he => hc b hb a ha he)
+  simp only [List.Nodup, List.pairwise_map]
+  have := List.Pairwise.and_mem.1 hsep
+  exact this.imp (fun {a b} ⟨ha, hb, hab⟩ => hinj a.val b.val (by
+    cases h : O.eq a.val b.val with
+    | false => rfl
+    | true =>
+      have := hs a ha b hb h
+      rw [hab] at this
+      cases this))
+
+theorem sorted_strict {l : List Bytes} (h1 : l.Pairwise (fun a b => bytesLe a b = true))
+    (h2 : l.Nodup) : l.Pairwise (fun a b => bytesLe a b = true ∧ a ≠ b) := by
+  induction l with
+  | nil => exact List.Pairwise.nil
+  | cons x xs ih =>
+    have a := List.pairwise_cons.1 h1
+    have b := List.nodup_cons.1 h2
+    refine List.pairwise_cons.2 ⟨fun y hy => ⟨a.1 y hy, fun e => b.1 (e ▸ hy)⟩, ih a.2 b.2⟩
 
 end Restli.KeySet
